@@ -1,6 +1,179 @@
 /-
-  C16 — property theorems (stub; to be filled in).
+  C16 — Save, upsert and FirstOrCreate/FirstOrInit converge to the documented state.
+
+  Model: GormModel/Model/Upsert.lean (transcribes finisher_api.go Save / FirstOrInit / FirstOrCreate /
+  assignInterfacesToValue, callbacks/create.go ConvertToCreateValues + OnConflict.UpdateAll expansion,
+  gorm.go getInstance / Session, statement.go clone, chainable_api.go Attrs / Assign).
+  The copy discipline of `Statement.clone()` enters through `genCfg`, computed from the regenerated
+  `Gen.cloneLiteral` / `Gen.cloneLater`; theorems about derivations quantify over every `CloneCfg`
+  and are then specialised to `genCfg`, so the statement that holds is decided by the current source.
 -/
+import GormModel.Lemmas.Upsert
 namespace Gorm
+open Gorm.Upsert
+
+/-! ## Session / WithContext invariance -/
+
+/-- FULL STATEMENT (holds for any tree whose `clone()` copies clauses, attrs and assigns):
+    inserting `Session(&Session{})` or `WithContext(ctx)` at any position of any chain changes nothing —
+    table, returned record, RowsAffected and error of every finisher are the same. -/
+theorem C16_session_invariant_of_full_copy (cfg : CloneCfg) (hf : cfg.full) (sch : Schema) (s : Store)
+    (steps : List Step) (f : Fin) (i : Nat) (d : Step) (hd : d.isDeriv = true) :
+    runChain cfg sch s (insertAt i d steps) f = runChain cfg sch s steps f := by
+  unfold runChain
+  have h1 := run_inv cfg (insertAt i d steps) _ base_inv
+  have h2 := run_inv cfg steps _ base_inv
+  rw [finish_eq_finishS sch s (cloneStmt_full hf _) h1, finish_eq_finishS sch s (cloneStmt_full hf _) h2,
+    run_stmt_full hf _ _ base_inv, run_stmt_full hf _ _ base_inv, foldl_insertAt _ _ _ hd]
+
+/-- PARTIAL (holds for the current tree; extra hypothesis = negation of finding F3's pattern):
+    if no Attrs/Assign with a non-empty argument list precedes the inserted derivation, the result is
+    unchanged — whatever `clone()` does with attrs/assigns. -/
+theorem C16_session_invariant_partial (cfg : CloneCfg) (hc : cfg.clauses = true) (sch : Schema) (s : Store)
+    (steps : List Step) (f : Fin) (i : Nat) (d : Step) (hd : d.isDeriv = true)
+    (hpat : ∀ st ∈ steps.take i, st.setsInit = false) :
+    runChain cfg sch s (insertAt i d steps) f = runChain cfg sch s steps f := by
+  unfold runChain insertAt
+  have e : steps = steps.take i ++ steps.drop i := (List.take_append_drop i steps).symm
+  generalize steps.take i = pre at hpat e
+  generalize steps.drop i = post at e
+  subst e
+  rw [run_append, run_append]
+  have hp : (Handle.base.run cfg pre).stmt.plain := run_plain cfg pre _ ⟨rfl, rfl⟩ hpat
+  have hi : (Handle.base.run cfg pre).Inv := run_inv cfg pre _ base_inv
+  generalize Handle.base.run cfg pre = h0 at hp hi
+  -- the derivation leaves the statement alone
+  have hs : (h0.step cfg d).stmt = h0.stmt := by
+    cases d <;> simp_all [Handle.step, Step.isDeriv, cloneStmt_plain hc hp]
+  have hi' : (h0.step cfg d).Inv := step_inv cfg h0 d
+  show finish cfg sch s ((h0.step cfg d).run cfg post) f = finish cfg sch s (h0.run cfg post) f
+  cases post with
+  | nil => exact finish_agree hc sch s hs (hs ▸ hp) hi' hi f
+  | cons st rest =>
+    show finish cfg sch s (((h0.step cfg d).step cfg st).run cfg rest) f = finish cfg sch s ((h0.step cfg st).run cfg rest) f
+    rw [step_agree hc hs (hs ▸ hp) hi' hi st]
+
+/-! ### finding F3: `Statement.clone` drops attrs / assigns -/
+
+/-- the schema of the harness model `U16` -/
+def c16Schema : Schema :=
+  { ncols := 8,
+    kind := fun c => match c with
+      | 0 => .pk | 4 => .clientDefault 7 | 5 => .dbDefault 8 | 6 => .autoCreate | 7 => .autoUpdate | _ => .plain }
+
+def c16Empty : Store := { rows := fun _ => none, next := 1 }
+
+/-- `db.Where(U{Name:"v1"}).Attrs(U{Age:2})` -/
+def c16CexChain : List Step := [.where_ [.eq 1 1], .attrs (some (.structV [(2, 2)]))]
+
+/-- COUNTEREXAMPLE (F3), for every tree whose `clone()` does not copy `attrs`:
+    `db.Where(U{Name}).Attrs(U{Age:2}).WithContext(ctx).FirstOrInit(&u)` yields Age 0, without the
+    `WithContext` it yields Age 2. -/
+theorem C16_session_invariant_counterexample (cfg : CloneCfg) (h : cfg.attrs = false) :
+    (runChain cfg c16Schema c16Empty (insertAt 2 .withCtx c16CexChain) (.firstOrInit [])).val 2 = 0 ∧
+    (runChain cfg c16Schema c16Empty c16CexChain (.firstOrInit [])).val 2 = 2 := by
+  cases cfg with
+  | mk cl ca cs =>
+    simp only at h
+    subst h
+    cases cl <;> cases cs <;> decide
+
+/-- `db.Where(U{Name:"v1"}).Assign("age", 2)` -/
+def c16CexChain2 : List Step := [.where_ [.eq 1 1], .assign (some (.kv 2 2))]
+
+def c16OneRow : Store := { rows := fun k => if k = 1 then some (fun c => if c ≤ 1 then 1 else 0) else none, next := 2 }
+
+/-- COUNTEREXAMPLE (F3, assigns), for every tree whose `clone()` does not copy `assigns` but copies clauses:
+    on a table holding (id 1, name v1) `db.Where(U{Name}).Assign("age", 2).WithContext(ctx).FirstOrCreate(&u)`
+    leaves age 0 in the row, without the `WithContext` the row gets age 2. -/
+theorem C16_assign_lost_counterexample (cfg : CloneCfg) (hc : cfg.clauses = true) (h : cfg.assigns = false) :
+    (((runChain cfg c16Schema c16OneRow (insertAt 2 .withCtx c16CexChain2)
+        (.firstOrCreate [])).store.rows 1).map (fun r => r 2)) = some 0 ∧
+    (((runChain cfg c16Schema c16OneRow c16CexChain2
+        (.firstOrCreate [])).store.rows 1).map (fun r => r 2)) = some 2 := by
+  cases cfg with
+  | mk cl ca cs =>
+    simp only at h hc
+    subst h; subst hc
+    cases ca <;> decide
+
+/-- regenerated fact: `clone()` copies the clause map (conditions and ON CONFLICT travel through derivations) -/
+theorem C16_clone_copies_clauses : genCfg.clauses = true := by decide
+
+/-- WHAT HOLDS FOR THE CURRENT SOURCE TREE, decided by the regenerated clone facts: either `clone()`
+    copies attrs and assigns and Session/WithContext invariance holds in full, or it does not and the
+    F3 witness separates the two chains (and invariance still holds outside the F3 pattern). -/
+theorem C16_session_invariant_current_tree :
+    (genCfg.full ∧ ∀ (sch : Schema) (s : Store) (steps : List Step) (f : Fin) (i : Nat) (d : Step), d.isDeriv = true →
+        runChain genCfg sch s (insertAt i d steps) f = runChain genCfg sch s steps f)
+    ∨ ((genCfg.attrs = false ∨ genCfg.assigns = false) ∧
+        (∃ (sch : Schema) (s : Store) (steps : List Step) (f : Fin) (i : Nat) (d : Step), d.isDeriv = true ∧
+          ((runChain genCfg sch s (insertAt i d steps) f).val 2 ≠ (runChain genCfg sch s steps f).val 2 ∨
+           ((runChain genCfg sch s (insertAt i d steps) f).store.rows 1).map (fun r => r 2) ≠
+             ((runChain genCfg sch s steps f).store.rows 1).map (fun r => r 2))) ∧
+        (∀ (sch : Schema) (s : Store) (steps : List Step) (f : Fin) (i : Nat) (d : Step), d.isDeriv = true →
+          (∀ st ∈ steps.take i, st.setsInit = false) →
+          runChain genCfg sch s (insertAt i d steps) f = runChain genCfg sch s steps f)) := by
+  have hc := C16_clone_copies_clauses
+  cases ha : genCfg.attrs with
+  | false =>
+    right
+    refine ⟨Or.inl rfl, ⟨c16Schema, c16Empty, c16CexChain, .firstOrInit [], 2, .withCtx, rfl, Or.inl ?_⟩, ?_⟩
+    · have := C16_session_invariant_counterexample genCfg ha
+      rw [this.1, this.2]; decide
+    · intro sch s steps f i d hd hp
+      exact C16_session_invariant_partial genCfg hc sch s steps f i d hd hp
+  | true =>
+    cases hs : genCfg.assigns with
+    | false =>
+      right
+      refine ⟨Or.inr rfl, ⟨c16Schema, c16OneRow, c16CexChain2, .firstOrCreate [], 2, .withCtx, rfl, Or.inr ?_⟩, ?_⟩
+      · have := C16_assign_lost_counterexample genCfg hc hs
+        rw [this.1, this.2]; decide
+      · intro sch s steps f i d hd hp
+        exact C16_session_invariant_partial genCfg hc sch s steps f i d hd hp
+    | true =>
+      left
+      exact ⟨⟨hc, ha, hs⟩, fun sch s steps f i d hd =>
+        C16_session_invariant_of_full_copy genCfg ⟨hc, ha, hs⟩ sch s steps f i d hd⟩
+
+/-! ## FirstOrInit / FirstOrCreate -/
+
+/-- FirstOrInit never writes: the table after it is the table before it — any chain, any conditions,
+    any attrs/assigns, any clone discipline. -/
+theorem C16_init_never_writes (cfg : CloneCfg) (sch : Schema) (s : Store) (steps : List Step) (inl : List Cond) :
+    (runChain cfg sch s steps (.firstOrInit inl)).store = s := by
+  simp only [runChain, finish, firstOrInit]
+  split <;> rfl
+
+theorem insertRow_frame (sch : Schema) (s : Store) (rule : Option Rule) (v : Row) :
+    ∃ k, ∀ j, j ≠ k → (insertRow sch s rule v).store.rows j = s.rows j := by
+  refine ⟨proposed sch s.next (fillCreate sch v) 0, ?_⟩
+  intro j hj
+  simp only [insertRow]
+  split
+  · simp [hj]
+  · split
+    · rfl
+    · split
+      · rfl
+      · simp [Store.put, hj]
+
+/-- FirstOrCreate writes at most one row: all keys but one keep their row (or absence of a row). -/
+theorem C16_create_at_most_one (cfg : CloneCfg) (sch : Schema) (s : Store) (steps : List Step) (inl : List Cond) :
+    ∃ k, ∀ j, j ≠ k → (runChain cfg sch s steps (.firstOrCreate inl)).store.rows j = s.rows j := by
+  simp only [runChain, finish, firstOrCreate]
+  split
+  · exact insertRow_frame sch s none _
+  · rename_i r _
+    refine ⟨r 0, ?_⟩
+    intro j hj
+    split
+    · rfl
+    · split
+      · split
+        · simp [Store.put, hj]
+        · rfl
+      · rfl
 
 end Gorm
